@@ -7,7 +7,7 @@ From AnemoVerif.Proofs Require Import Rpc_proofs Shutdown_proofs.
     request that really decodes from those bytes, or ends that stream's task with an error. *)
 Theorem C06_errors_confined : forall max handler st st',
   sstep max handler st TryDecode = Some st' ->
-  (exists q, ss st' = SRunning q /\ exists rest, dec_request max (firstn (delivered st) (wire st)) = Ok (q, rest))
+  (exists q, ss st' = SQueued q /\ exists rest, dec_request max (firstn (delivered st) (wire st)) = Ok (q, rest))
   \/ ss st' = SFailed.
 Proof. exact errors_confined. Qed.
 
